@@ -151,6 +151,9 @@ pub const UNARY: &[&str] = &[
     // destructuring with the names used afterwards (where a type is required and where it is not)
     "(p, q) := X; r := p", "(p, q) := X; r := (q, p)", "(p, q, s) := X; r := [p, q, s]", "(p, q) := X; r := p + 1", "(p, q) := X; r := q + \"!\"",
     "(p, q) := X; c := mut int 0; c = p; r := c", "(p, q) := X; g := () -> int { return p; }; r := g()",
+    // folds whose initial value is not of the type the function returns, used as that type
+    "r := (X $ () (acc: any, c: any) -> int { return 1; }) + 1", "r := (X~ $ \"s\" (acc: any, c: any) -> int { return 1; }) * 2",
+    "r := [X $ 0.5 (acc: any, c: any) -> int { return 1; }][0] - 1", "c := mut int 0; c = X~ $ () (acc: any, v: any) -> int { return 2; }; r := c",
     // calls through the operand with arguments of several types
     "r := X(\"s\") + 1", "r := X(1, \"s\")", "r := X(\"s\", \"t\")", "r := X([1.5])", "c := mut int 0; c = X(\"s\"); r := c",
 ];
